@@ -22,9 +22,10 @@ func TestC42Batches(t *testing.T) {
 	rec := ev.New("C42", "batches")
 	defer rec.Flush()
 	k, n := ev.Shard()
-	layouts := [][2]int{{1001, 3}, {600, 500}, {1000, 3}}
+	// a long tail after the first batch matters: the successor of the resume key must be an unmigrated entry
+	layouts := [][2]int{{1001, 3}, {600, 900}, {1500, 2}}
 	if ev.Thorough() {
-		layouts = append(layouts, [2]int{999, 3}, [2]int{3, 1000}, [2]int{1500, 0}, [2]int{2005, 10}, [2]int{1000, 1000}, [2]int{2000, 1})
+		layouts = append(layouts, [2]int{999, 3}, [2]int{1000, 3}, [2]int{3, 1000}, [2]int{2005, 10}, [2]int{1000, 1000}, [2]int{2000, 1})
 	}
 	idx := 0
 	for _, l := range layouts {
